@@ -12,9 +12,10 @@
    the full statements are kept as Definitions, refuted with concrete witnesses, and proved
    under hypotheses that exclude exactly the triggers (safe_step); each excluded hypothesis is
    shown necessary by a witness that satisfies all the others (c08_trigger_*_needed). *)
-From Coq Require Import ZArith NArith List Bool.
+From Coq Require Import ZArith NArith List Bool Lia.
 From Tinode Require Import Base.Util Pure.Acs Sys.Topic Sys.TopicTac Sys.TopicFrame Sys.TopicNum Sys.TopicNumThm Sys.TopicInst
-  Sys.TopicCoh Sys.TopicCohProofs Sys.TopicCohStep Sys.TopicCohRun Sys.TopicCohQuery Sys.TopicCohWit.
+  Sys.TopicCoh Sys.TopicCohProofs Sys.TopicCohStep Sys.TopicCohRun Sys.TopicCohQuery Sys.TopicCohWit
+  Sys.TopicCohReject Sys.TopicCohAck Sys.TopicCohWit2.
 Import ListNotations.
 Open Scope Z_scope.
 
@@ -66,10 +67,32 @@ Proof. exact (query_agree dr nr sm). Qed.
 Theorem c08_unload_invisible : forall f x q,
   is_query q = true -> answer dr nr sm f (fst (step dr nr sm NoFault x OUnload)) q = answer dr nr sm f x q.
 Proof. exact (unload_invisible dr nr sm). Qed.
+(* ACK => STORED, every fault plan: if a mutating request is acknowledged (2xx), the state after it
+   satisfies the invariant - the cache (which holds the acknowledged change) is what a restart would
+   load from the store.  For publish and delete the acknowledgement itself shows that no store call
+   it depends on failed; what remains excluded is the store error messagesMapper.Save ignores
+   (3rd call of a publish, finding #6) and a fault during an ownership acceptance (finding #9). *)
+Theorem c08_ack_implies_stored_partial : forall f x o,
+  inv x -> inv_num x -> known sm o ->
+  ~ trig_note_read sm x o -> ~ trig_readless_pub sm x o -> ~ trig_offline_setsub x o ->
+  ack_fault_ok sm f x o ->
+  ok_reply (snd (step dr nr sm f x o)) (op_sid o) ->
+  inv (fst (step dr nr sm f x o)).
+Proof. exact (step_ack dr nr sm). Qed.
+
+(* REJECT => NO CHANGE, without store faults: a request answered 4xx/5xx leaves the store as it was and
+   the cache as it was (or freshly built by the load path, when the rejected request was the one that
+   loaded the topic) - except the banned-subscriber case (finding #4) *)
+Theorem c08_reject_no_change_partial : forall x o,
+  (match ca x with Some c => forall m, In m (seqs (st x)) -> m <= c_lastid c | None => True end) ->
+  ~ trig_banned sm x o ->
+  err_reply (snd (step dr nr sm NoFault x o)) (op_sid o) ->
+  unchanged x (fst (step dr nr sm NoFault x o)).
+Proof. exact (step_reject dr nr sm). Qed.
 End C08.
 
 (* ------------------------------------------------------------------ *)
-(* the full statement and its refutation *)
+(* the full statements and their refutations *)
 Definition c08_step_coherent_statement : Prop :=
   forall dr nr sm f x o, inv x -> inv_num x -> known sm o -> coherent (fst (step dr nr sm f x o)).
 
@@ -95,6 +118,29 @@ Proof. eexists _, _. exact ref_del_fail3. Qed.
 Theorem c08_fault_owner_transfer_needed : exists x o, refutes 4 x (FailAt 2) o.
 Proof. eexists _, _. exact ref_transfer_fail2. Qed.
 
+(* reject law, full statement (any fault plan, banned subscribers included) *)
+Definition c08_reject_no_change_statement : Prop :=
+  forall dr nr sm f x o, inv x -> inv_num x -> known sm o ->
+    err_reply (snd (step dr nr sm f x o)) (op_sid o) -> st (fst (step dr nr sm f x o)) = st x.
+Theorem c08_reject_no_change_refuted : ~ c08_reject_no_change_statement.
+Proof. intros H. destruct rbc_banned as [A B C D E]. apply E. apply (H _ _ _ _ _ _ A B C D). Qed.
+Theorem c08_reject_banned_needed : exists x o, rejected_but_changed x NoFault o /\ trig_banned wit_sm x o.
+Proof. eexists _, _. split; [exact rbc_banned|exact rbc_banned_is_trigger]. Qed.
+Theorem c08_reject_fault_publish_needed : exists x o, rejected_but_changed x (FailAt 2) o.
+Proof. eexists _, _. exact rbc_pub_fail2. Qed.
+Theorem c08_reject_fault_delete_needed : exists x o, rejected_but_changed x (FailAt 2) o.
+Proof. eexists _, _. exact rbc_del_fail2. Qed.
+
+(* ack law, full statement; refuted by the acknowledged publish whose mark update failed (and by #2) *)
+Definition c08_ack_implies_stored_statement : Prop :=
+  forall dr nr sm f x o, inv x -> inv_num x -> known sm o ->
+    ok_reply (snd (step dr nr sm f x o)) (op_sid o) -> coherent (fst (step dr nr sm f x o)).
+Theorem c08_ack_implies_stored_refuted : ~ c08_ack_implies_stored_statement.
+Proof.
+  intros H. destruct ref_pub_fail3 as [A B C _ _ _ _ D]. apply D. apply (H _ _ _ _ _ _ A B C).
+  left. exists 202, [(P_seq, 1)]. split; [vm_compute; auto|lia].
+Qed.
+
 Print Assumptions c08_coherent_init.
 Print Assumptions c08_coherent_load.
 Print Assumptions c08_inv_coherent.
@@ -103,6 +149,13 @@ Print Assumptions c08_run_coherent_partial.
 Print Assumptions c08_reload_invisible.
 Print Assumptions c08_query_agree.
 Print Assumptions c08_unload_invisible.
+Print Assumptions c08_ack_implies_stored_partial.
+Print Assumptions c08_reject_no_change_partial.
+Print Assumptions c08_reject_no_change_refuted.
+Print Assumptions c08_reject_banned_needed.
+Print Assumptions c08_reject_fault_publish_needed.
+Print Assumptions c08_reject_fault_delete_needed.
+Print Assumptions c08_ack_implies_stored_refuted.
 Print Assumptions c08_step_coherent_refuted.
 Print Assumptions c08_trigger_note_read_needed.
 Print Assumptions c08_trigger_readless_publisher_needed.
